@@ -368,6 +368,26 @@ def r3(ctx):
         if not ok:
             ctx.violation("digest/%s" % short(fn, 1), ctx.where(fn), "%s hashes with %s, expected %s over the whole file (io::copy)" % (short(fn, 1), txts, ctor))
     ctx.covered("digest functions -> hasher type", 4, distinct_keys=list(want))
+    # content columns read what the path leads to (open follows links, like sha1sum / wc / file): the open of a content
+    # reader is not conditioned on the directory entry's own type (DirEntry::file_type and lstat do not follow links)
+    n_open = 0
+    for fn in list(want) + ["util::get_line_count", "util::is_shebang"]:
+        h = ctx.prog.hir(fn)
+        if h is None:
+            continue
+        for c in walk_exprs(h):
+            if c["k"] == "Call" and str(c.get("callee", "")).endswith("File::open"):
+                n_open += 1
+                gs = [g for g in with_exits(guards_of(h, c) or []) if g[0] in ("if", "match")]
+                txt = " ; ".join(guard_text(g) for g in gs)
+                bad = [w for w in ("file_type", "symlink_metadata", "is_file()", "is_symlink()", "FileType") if w in txt]
+                ctx.obligation(not bad)
+                if bad:
+                    ctx.violation("reader-open/%s" % short(fn, 1), ctx.where(fn, c),
+                                  "%s opens the file only under `%s`: the entry's own type does not follow links, so a symbolic link to a regular file "
+                                  "gets an empty value although its content is readable" % (short(fn, 1), txt[:160]))
+    ctx.covered("File::open calls of the content readers not conditioned on the entry's own type", n_open, distinct_keys=["opens:%d" % n_open])
+    ctx.floor(n_open, 5, "File::open calls in the content readers", "util")
     # extension classes read their own configuration list (user config, then default config)
     n = 0
     for cls in ("is_zip_archive", "is_archive", "is_audio", "is_book", "is_doc", "is_font", "is_image", "is_source", "is_video"):
